@@ -110,14 +110,6 @@ def _sig_var_word_steals_option_value(w):
     return any(a[0] in ('sDet', 'lDet') and is_var_word(a[-1]) for a in (case.get('asgs') or []))
 
 
-def _sig_empty_word_crash(w):
-    """F-C16d: through DoitMain, the command line has an empty word and doit ended with IndexError"""
-    case = w.get('case') or {}
-    res = (w.get('impl') or {}).get('res') or {}
-    return (case.get('path') in VIA_DOITMAIN and '' in (case.get('argv') or [])
-            and res.get('err') == 'crash' and 'IndexError' in str(res.get('exc')))
-
-
 def _sig_backend_choice_from_config(w):
     """F-C16e: a config section / DOIT_CONFIG names a `backend` that does not exist and doit died with the TypeError"""
     case = w.get('case') or {}
@@ -131,7 +123,7 @@ def _sig_backend_choice_from_config(w):
 
 SIGNATURES = {'var-word-steals-option-value': _sig_var_word_steals_option_value,
               'backend-choice-from-config-unchecked': _sig_backend_choice_from_config,
-              'empty-word-crash': _sig_empty_word_crash}
+              }
 
 PATHS = ['parse', 'parse', 'command', 'main', 'premain', 'task', 'runtask', 'creator']
 # + 'realrun' (the real `doit run`, wave 4 #23): generated by realrun_cases(), not by gen_case
@@ -313,13 +305,9 @@ def gen_case(rng, base, path=None):
             case['pos'] = ([rng.choice(optlib.POSITIONALS + ['k=v', '-x']) for _ in range(rng.randint(0, 3))]
                            if case['api_pos_given'] else [])
             case['argv'] = ['--'] + case['pos']       # the model's view: nothing to parse, positionals as they are
-    if path == 'creator':
-        # '' as an argument crashes loader.load_tasks (term[0]) before any option parsing (the creator path calls it directly)
-        if any(a == '' for a in case['argv']):
-            return gen_case(rng, base, path)
     # main / premain / runtask: '' and `name=value` words are generated; DoitMain.process_args is part of the model
     # (stripVars): `x=1` positionals are command-line variables (documented), a detached option value `--o a=b` is
-    # taken for one too and '' crashes -- see F-C16c / F-C16d
+    # taken for one too (F-C16c, open); '' is an ordinary word (F-C16d, fixed)
     if path == 'creator' and (case['pos'] or case['sep'] or any(a == 't' for a in case['argv'])):
         case['pos'] = []
         case['sep'] = False
@@ -882,6 +870,10 @@ def process_batch(batch):
                 if not ok:
                     extra = ' [seen only after earlier cases in the same process: state leaks between parses; ' \
                             'not reproduced standalone]'
+            if known or small is case or len(st.violations) >= 50:
+                # as found: no second evaluation (listed findings are hit thousands of times in the thorough tier)
+                st.violation(witness_of(case, impl, model, spec, label, note + extra), label, note + extra)
+                continue
             c2, i2, m2, s2 = eval_cases([small])[0]
             v2 = [v for v in judge(c2, i2, m2, s2)[0] if v[0] == label]
             st.violation(witness_of(c2, i2, m2, s2, label, (v2[0][1] if v2 else note) + extra), label,
